@@ -95,6 +95,41 @@ pub fn s3(ctx: &Ctx) {
     }
 }
 
+/// S8: scale - counts that cross 255 / 65535: many point clouds, many points, many packets
+pub fn s8(ctx: &Ctx) {
+    let k = ctx.pick("scale-case", 9);
+    let b1 = m::Ty::Int { min: 0, max: 1 };
+    let p = match k {
+        // 255 / 256 / 257 / 300 point clouds of one or two points each
+        0..=3 => {
+            let n = [255usize, 256, 257, 300][k];
+            let ops = (0..n).map(|i| Op::Cloud(cloud(cat::xyz(cat::F32), 1 + i % 2, 1000 + i as u64))).collect();
+            Program { guid: "g".into(), ops, ..Default::default() }
+        }
+        // 65535 / 65536 / 65537 points (xyz f32 + one 1-bit record)
+        4..=6 => {
+            let n = [65535usize, 65536, 65537][k - 4];
+            let mut proto = cat::xyz(cat::F32);
+            proto.push(cat::rec("isIntensityInvalid", b1.clone()));
+            proto.insert(3, cat::rec("intensity", cat::F32));
+            Program { guid: "g".into(), ops: vec![Op::Cloud(cloud(proto, n, 7))], ..Default::default() }
+        }
+        // 300 / 70000 data packets of one point each (hooked capacity 1)
+        _ => {
+            let n = [300usize, 70000][k - 7];
+            let mut c = cloud(cat::xyz(cat::F32), n, 8);
+            c.cap = Some(1);
+            Program { guid: "g".into(), ops: vec![Op::Cloud(c)], ..Default::default() }
+        }
+    };
+    ctx.describe(|| format!("scale case {k}: {} ops, {} points in the first cloud", p.ops.len(), match &p.ops[0] { Op::Cloud(c) => c.points.len(), _ => 0 }));
+    let Some(w) = write_valid(ctx, &p, P) else { return };
+    if read_and_compare(ctx, &p, &w, P, None).is_some() {
+        ctx.observe_u64(explore::fnv(&w.bytes));
+        ctx.nontrivial();
+    }
+}
+
 /// S4: hooked capacity c in 1..=9 x npoints 0..=3c+1 x every catalogue type as 4th record
 /// (thorough: also as the type of X, Y and Z)
 pub fn gen_s4(ctx: &Ctx) -> (Program, usize, usize, usize) {
